@@ -262,6 +262,13 @@ static MPT_INTERFACE(metatype) *parseClone(const MPT_INTERFACE(metatype) *mt)
 		if (!it->end) {
 			c->end = 0;
 		}
+		/* current element was already delimited by a conversion */
+		if (it->val && restore) {
+			c->restore = c->val + (restore - it->val);
+			c->save = it->save;
+			*c->restore = 0;
+			c->next = it->next ? c->val + (it->next - it->val) : 0;
+		}
 	}
 	return copy;
 }
